@@ -43,21 +43,24 @@ def handle (args : List String) (impl : String) : R Ans :=
         else "ok"   -- out of range: asserted / unspecified
       pure { model, verdict }
     | "iter", [] => do
-      let model := match v?.bind iterKmers with | some ks => showKs c ks | none => "panic"
+      let model := match v?.bind iterKmers with | some ks => showKs c ks ++ " it=" ++ adaptorsTxt (ks.map (showK c)) | none => "panic"
       let ws := KSpec.windows c.K l
-      let expect := if ws.isEmpty then "-" else ",".intercalate (ws.map expK)
+      let expect := (if ws.isEmpty then "-" else ",".intercalate (ws.map expK)) ++ " it=" ++ adaptorsTxt (ws.map expK)
       pure { model, verdict := if impl == expect then "ok" else "FAIL:iterator-differs-from-the-n-K+1-windows" }
     | "iterexts", [e] => do
       let e ← hex e
       let model := match v?.bind (iterKmerExts · e) with
-        | some ks => if ks.isEmpty then "-" else ",".intercalate (ks.map fun (k, x) => s!"{showK c k}:{toHex x 2}")
+        | some ks =>
+          let items := ks.map fun (k, x) => s!"{showK c k}:{toHex x 2}"
+          (if items.isEmpty then "-" else ",".intercalate items) ++ " it=" ++ adaptorsTxt items
         | none => "panic"
       let ws := KSpec.windows c.K l
       let m := ws.length
-      let expect := if ws.isEmpty then "-" else ",".intercalate (ws.zipIdx.map fun (w, i) =>
+      let expItems := ws.zipIdx.map fun (w, i) =>
         let left := if i = 0 then e % 16 else 2 ^ (l.getD (i - 1) 0)
         let right := if i + 1 = m then (e / 16) * 16 else 2 ^ (4 + l.getD (i + c.K) 0)
-        s!"{expK w}:{toHex (left + right) 2}")
+        s!"{expK w}:{toHex (left + right) 2}"
+      let expect := (if ws.isEmpty then "-" else ",".intercalate expItems) ++ " it=" ++ adaptorsTxt expItems
       pure { model, verdict := if impl == expect then "ok" else "FAIL:kmer/extension-pairs-differ-from-true-flanks" }
     | "term", [] => do
       let sh := fun (o : Option (St c)) => match o with | some k => showK c k | none => "panic"
